@@ -151,6 +151,11 @@ pub(crate) fn execute_merge<S: GraphSnapshot>(
 pub trait WriteableGraph {
     fn create_node(&mut self, external_id: ExternalId, label_id: LabelId)
     -> Result<InternalNodeId>;
+    /// Relationships created earlier in this transaction that start or end at `node`; a snapshot
+    /// of the committed state does not show them. Implementations that cannot tell return none.
+    fn pending_relationships_of(&self, _node: InternalNodeId) -> Vec<EdgeKey> {
+        Vec::new()
+    }
     /// Whether `external_id` is already taken by a node of the database or of this transaction.
     /// Implementations that cannot tell answer `false`.
     fn external_id_in_use(&self, _external_id: ExternalId) -> bool {
